@@ -16,8 +16,9 @@ def cells(tier):
     q = tier == "quick"
     out += grid(MON, [0, 1, 2], ["A2", "A2|M3/2", "M3/1|A1"], ["none", "cancel0", "cgroupA", "call", "flush", "gac"],
                 ["plain"], [["ret"], ["ret", "exc"]],
-                skip=lambda s, rn, dn, cn, o: s == 0 and len(o) > 1)
-    out += grid(MON, [1, 2], ["A2|M3/2"], ["cancel0", "call", "cancel0+flush"], ["slowecb", "slowccb"], [["ret"]])
+                skip=lambda s, rn, dn, cn, o: (s == 0 and len(o) > 1) or (q and s == 2 and rn == "A2|M3/2" and len(o) > 1 and dn in ("flush", "gac", "call")))
+    out += grid(MON, [1, 2], ["A2|M3/2"], ["cancel0", "call", "cancel0+flush"], ["slowecb", "slowccb"], [["ret"]],
+                skip=lambda s, rn, dn, cn, o: q and s == 2 and dn == "cancel0+flush")
     # spawn requests issued from user code the pool runs (worker start, end callback)
     for size in [1, 2]:
         for at in (["w_start"], ["ecb"], ["ccb", "w_cancel"]):
